@@ -30,6 +30,30 @@ c03 = [
    {"op": "feed", "s": B, "pack": {"id": B + "#2", "b": 0, "e": 6, "b0": True, "msgs": []}}, run(B)]},
 ]
 
+# resume with several collections sharing the channel, each from its own checkpoint: every start order x every order
+# of the first packs; the channel clock floor is the highest checkpoint whichever collection re-creates the handler
+import itertools
+C3 = "sa_103v0"
+_seek = {"c1": 20, "c2": 12, "c3": 16}
+_sv = {"c1": A, "c2": B, "c3": C3}
+for cs in (("c1", "c2"), ("c1", "c2", "c3")):
+    for so in itertools.permutations(cs):
+        for fo in itertools.permutations(cs):
+            steps = [{"op": "start", "c": c, "seek": [{"ch": "sa", "id": "ckpt-" + c, "ts": _seek[c]}]} for c in so]
+            for c in fo:
+                t = _seek[c]
+                steps += [feed(_sv[c], 1, t, t + 2, [m("ins", t + 1)]), run(_sv[c])]
+            for c in fo:
+                t = _seek[c]
+                steps += [feed(_sv[c], 2, t + 2, t + 3, []), run(_sv[c])]
+            c03.append({"plan": "d-floor%d-%s-%s" % (len(cs), "".join(x[1] for x in so), "".join(x[1] for x in fo)),
+                        "params": {"tt": 1, "catalog": CAT_ONEQ, "floor": 20}, "steps": steps})
+
+# known finding C03_resume_start_order: c2 is read before c1 (later checkpoint, same downstream channel) has been started
+c03.append({"plan": "d-resume-late-start", "params": {"tt": 1, "catalog": CAT_ONEQ}, "steps": [
+    {"op": "start", "c": "c2", "seek": [{"ch": "sa", "id": "ckpt-c2", "ts": 12}]}, feed(B, 1, 12, 14, [m("ins", 13)]), run(B),
+    {"op": "start", "c": "c1", "seek": [{"ch": "sa", "id": "ckpt-c1", "ts": 20}]}, feed(A, 1, 20, 22, [m("ins", 21)]), run(A)]})
+
 cat_late = [coll("c1", 101, ["sa_101v0"], ["ta_901v0"], 901, parts={"_default": [1011, 9011], "pl": [1013, 9013]}, late=["pl"])]
 cat_gone = [coll("c1", 101, ["sa_101v0"], ["ta_901v0"], 901, parts={"_default": [1011, 9011], "pd": [1014, 9014]}, notgt=["pd"], dropboth=["pd"])]
 c01 = [
